@@ -1940,6 +1940,7 @@ impl Verbatim {
     /// # }
     /// ```
     pub fn new(samples: &[i32], bits_per_sample: usize) -> Result<Self, VerifyError> {
+        verify_block_size!("samples.len", samples.len())?;
         verify_bps!("bits_per_sample", bits_per_sample)?;
         for v in samples {
             verify_sample_range!("samples", *v, bits_per_sample)?;
@@ -2018,6 +2019,11 @@ impl FixedLpc {
         }
         let warm_up = heapless::Vec::from_slice(warm_up)
             .map_err(|()| VerifyError::new("warm_up", "must be shorter than (or equal to) 4"))?;
+        verify_true!(
+            "warm_up.len",
+            warm_up.len() == residual.warmup_length(),
+            "must be identical with the warm-up length of `residual`"
+        )?;
         let ret = Self::from_parts(warm_up, residual, bits_per_sample as u8);
         Ok(ret)
     }
@@ -2116,6 +2122,11 @@ impl Lpc {
                 "must be shorter than (or equal to) `qlpc::MAX_ORDER`",
             )
         })?;
+        verify_true!(
+            "warm_up.len",
+            warm_up.len() == parameters.order(),
+            "must be identical with the order of `parameters`"
+        )?;
         let ret = Self::from_parts(warm_up, parameters, residual, bits_per_sample as u8);
         ret.verify()?;
         Ok(ret)
